@@ -16,6 +16,7 @@ import (
 	"verifharness/e4"
 	"verifharness/e5"
 	"verifharness/e6"
+	"verifharness/e9"
 	"verifharness/report"
 	"verifharness/run"
 )
@@ -30,6 +31,7 @@ func main() {
 	props := flag.String("props", "", "properties whose oracles are evaluated (comma separated; empty = all)")
 	variant := flag.String("variant", "fixed", "model variant (legacy only for regression witnesses)")
 	cliBin := flag.String("cli", "", "toxiproxy-cli binary built from /repo (engine e5)")
+	serverBin := flag.String("server", "", "toxiproxy-server binary built from /repo (engine e9)")
 	flag.Parse()
 	zerolog.SetGlobalLevel(zerolog.Disabled) // the bandwidth toxic logs through the global logger
 	res := report.New(*engine, *tier, *seed)
@@ -95,6 +97,11 @@ func main() {
 		}
 		eng = e
 		sweep = func() { e6.Sweep(e, *tier, *seed, res); res.DriverLines = d.Sent }
+	case "e9":
+		e := e9.New(*serverBin)
+		defer e.Close()
+		eng = e
+		sweep = func() { e9.Sweep(e, *tier, *seed, res) }
 	default:
 		fmt.Fprintln(os.Stderr, "unknown engine")
 		os.Exit(2)
